@@ -73,6 +73,12 @@ def run_case(cs):
         tree["M"] = None
         tree["M/c.bin"] = b"c"
         kids = ["K/L", "K", "M"]
+    if rng.random() < 0.4:
+        # siblings that differ only in case: a case-insensitive or unstable ordering shows up under listing permutations
+        stem = world.gen_name(rng, "plain", ext=False)
+        par = rng.choice([""] + [k + "/" for k, v in tree.items() if v is None])
+        for nm in {stem.lower() + ".mov", stem.upper() + ".mov", stem.capitalize() + ".MOV"}:
+            tree[par + nm] = rng.randbytes(4)
     # fodder that user patterns would match
     pats = rng.sample(["*.tmp", "scratch*", "[xy]*"], rng.choice([0, 1, 1, 2]))
     if pats and rng.random() < 0.7:
